@@ -321,3 +321,16 @@ def run(ctx):
                    "log cleaning removes exactly the logs of targets that left the workflow, none when switched off or on a dry run", select=lambda d: "log" in d or "ends with" in d)
     from .shared import rule_config_switch
     rule_config_switch(ctx, r6, "clean_logs", "`gwf run` decides whether to clean logs (config.get('clean_logs'))")
+    from .evalhelpers import cached_witness, report_witness, workflow_api_witness, task_coroutine_witness
+    ww = cached_witness(ctx, "workflow-api", workflow_api_witness)
+    report_witness(r5, "src/gwf/workflow.py::Workflow::witnesses", "src/gwf/workflow.py:1", ww, "workflow default < template < per-target argument, evaluated on a symbolic workflow",
+                   select=lambda d: "option" in d or "precedence" in d)
+    if not ww[1]:
+        ctx.reconcile([r5], lambda c: "workflow.py::Workflow.target" in c, (ww[0], [], ww[2]), "src/gwf/workflow.py::Workflow", "src/gwf/workflow.py:1")
+    # log cleaning guard / log location of the local pool: decided by the evaluated run command / task coroutine when the shape is not recognised
+    wrun = cached_witness(ctx, "run", run_command_witness)
+    if not [d for d in wrun[1] if "log" in d]:
+        ctx.reconcile([r6], lambda c: "plugins/run.py::run::clean_logs-guard" in c or "plugins/run.py::clean_logs" in c, (wrun[0], [], wrun[2]), "src/gwf/plugins/run.py::run", "src/gwf/plugins/run.py:1")
+    wt = cached_witness(ctx, "task", task_coroutine_witness)
+    if not [d for d in wt[1] if "output is stored" in d or "logs are opened" in d]:
+        ctx.reconcile([r3], lambda c: "Scheduler.try_handle_task::log-location" in c, (wt[0], [], wt[2]), "src/gwf/backends/local.py::Scheduler.try_handle_task", "src/gwf/backends/local.py:1")
